@@ -357,3 +357,37 @@ package values
 //@ ensures cells: sameold("P$Fn") && sameold("P$Val") && sameold("S$Val") && sameold("S$Fn") && sameold("M$has$Str$Val") && sameold("M$val$Str$Val") && sameold("F$expressions.context$Config") && sameold("F$expressions.context$bindings")
 //@ ensures parityErr: is(result1, *values.CallParityError) ==> pl_ptr(result1) != 0
 //@ ensures parity: !tvariadic(typeof(rv_val(fn))) && len(args) > tnumin(typeof(rv_val(fn))) ==> result1 != nil
+
+// ---- deterministic map order (C02) -------------------------------------------------------
+// Go randomises map iteration; every place that turns a map into a sequence goes through
+// SortedMapKeys, whose result is sorted by a comparison that depends on the two keys only.
+//@ func (values.sortableKeys).Len
+//@ pure
+//@ props C02 C01
+//@ ensures def: result == len(s)
+
+//@ func (values.sortableKeys).Less
+//@ props C02 C01
+//@ panics nothing
+//@ assigns nothing
+//@ requires inrange: 0 <= i && i < len(s) && 0 <= j && j < len(s) && rv_valid(s[i]) && rv_valid(s[j])
+//@ ensures def: result == (values.Less(rv_val(s[i]), rv_val(s[j])) || (!values.Less(rv_val(s[j]), rv_val(s[i])) && sprint1(rv_val(s[i])) < sprint1(rv_val(s[j]))))
+
+//@ func (values.sortableKeys).Swap
+//@ props C02 C01
+//@ panics nothing
+//@ assigns S$RV
+//@ requires inrange: 0 <= i && i < len(s) && 0 <= j && j < len(s)
+//@ ensures swapped: s[i] == old(s[j]) && s[j] == old(s[i])
+//@ ensures rest: forall(k, 0, len(s), k != i && k != j ==> s[k] == old(s[k]))
+//@ ensures only: onlybase("S$RV", s)
+
+//@ func values.SortedMapKeys
+//@ props C02 C01
+//@ panics nothing
+//@ requires kind: rvkind(rv) == reflect.Map
+//@ assigns alloc S$RV
+//@ ensures fresh: fresh(result) || len(result) == 0
+//@ ensures count: len(result) == pl_len(rv_val(rv))
+//@ ensures keys: forall(i, 0, len(result), rv_valid(result[i]) && pl_mhas(rv_val(rv), rv_val(result[i])) && (rv_iface(result[i]) || tassignable(typeof(rv_val(result[i])), tkey(typeof(rv_val(rv))))))
+//@ ensures sorted: forall(i, 1, len(result), !(values.Less(rv_val(result[i]), rv_val(result[i-1])) || (!values.Less(rv_val(result[i-1]), rv_val(result[i])) && sprint1(rv_val(result[i])) < sprint1(rv_val(result[i-1])))))
